@@ -8,6 +8,9 @@ package main
 
 import (
 	"fmt"
+	"go/types"
+	"regexp"
+	"sort"
 	"strings"
 
 	"golang.org/x/tools/go/ssa"
@@ -24,6 +27,8 @@ func assertMatches(at string, cc *ssa.CallCommon, callee *ssa.Function) bool {
 		}
 	} else if cc.IsInvoke() {
 		names = append(names, cc.Method.Name(), cc.Method.FullName())
+	} else if dn := dynCallName(cc); dn != "" {
+		names = append(names, dn)
 	}
 	for _, n := range names {
 		if n == at || strings.HasSuffix(n, "."+at) || strings.HasSuffix(n, ")."+at) {
@@ -38,7 +43,16 @@ func (f *Frame) callAsserts(cur *blockCur, in ssa.Instruction, cc *ssa.CallCommo
 		return
 	}
 	for _, cl := range f.con.Asserts {
-		if !assertMatches(cl.At, cc, callee) {
+		at, ord := cl.At, 0
+		if i := strings.LastIndex(at, "#"); i > 0 {
+			// `at NAME#k`: only the k-th call of NAME in source order
+			fmt.Sscanf(at[i+1:], "%d", &ord)
+			at = at[:i]
+		}
+		if !assertMatches(at, cc, callee) {
+			continue
+		}
+		if ord > 0 && f.callOrdinal(at, in) != ord {
 			continue
 		}
 		if f.c.assertHit == nil {
@@ -72,8 +86,110 @@ func (f *Frame) unmatchedAsserts() error {
 	}
 	for _, cl := range f.con.Asserts {
 		if f.c.assertHit[cl] == 0 {
-			return fmt.Errorf("assert %s: the body of %s never calls %q", clauseLabel(cl), fnDisplayName(f.fn), cl.At)
+			return fmt.Errorf("assert %s: the body of %s never calls %q (or has no such call site)", clauseLabel(cl), fnDisplayName(f.fn), cl.At)
 		}
 	}
 	return nil
+}
+
+// dynCallName: the source-level name a dynamic call goes through — the function-typed struct field it was loaded from
+// (`s.next(...)` -> "next"), the function-typed parameter (`yield(...)` -> "yield") or the captured variable
+// holding it (`(*yield)(...)` in a range-over-func body -> "yield"). "" when the callee value has no such name.
+func dynCallName(cc *ssa.CallCommon) string {
+	if cc.IsInvoke() || cc.StaticCallee() != nil {
+		return ""
+	}
+	switch v := cc.Value.(type) {
+	case *ssa.Parameter:
+		return v.Name()
+	case *ssa.UnOp:
+		switch x := v.X.(type) {
+		case *ssa.FieldAddr:
+			if pt, ok := x.X.Type().Underlying().(*types.Pointer); ok {
+				if st, ok := pt.Elem().Underlying().(*types.Struct); ok && x.Field < st.NumFields() {
+					return st.Field(x.Field).Name()
+				}
+			}
+		case *ssa.FreeVar:
+			return x.Name()
+		case *ssa.Alloc:
+			return x.Comment
+		}
+	case *ssa.Field:
+		if st, ok := v.X.Type().Underlying().(*types.Struct); ok && v.Field < st.NumFields() {
+			return st.Field(v.Field).Name()
+		}
+	}
+	return ""
+}
+
+var callsRe = regexp.MustCompile(`\bcalls\(\s*([A-Za-z_][A-Za-z0-9_.$]*)\s*\)`)
+
+// trackedCalls: the names N for which the contract of the function under verification mentions calls(N).
+func (c *FuncCtx) trackedCalls() []string {
+	if c.tracked != nil || c.rootCon == nil {
+		return c.tracked
+	}
+	c.tracked = []string{}
+	seen := map[string]bool{}
+	add := func(text string) {
+		for _, m := range callsRe.FindAllStringSubmatch(text, -1) {
+			if !seen[m[1]] {
+				seen[m[1]] = true
+				c.tracked = append(c.tracked, m[1])
+			}
+		}
+	}
+	con := c.rootCon
+	for _, cl := range con.Requires {
+		add(cl.Text)
+	}
+	for _, cl := range con.Ensures {
+		add(cl.Text)
+	}
+	for _, cl := range con.Asserts {
+		add(cl.Text)
+	}
+	for _, cls := range con.Invariants {
+		for _, cl := range cls {
+			add(cl.Text)
+		}
+	}
+	return c.tracked
+}
+
+func callsKey(name string) HeapKey { return HeapKey{Name: "G_calls_" + sanitize(name), Sort: "Int"} }
+
+// countCall: after the call-site assertions of a call have been evaluated, every tracked name the call matches has
+// its ghost counter incremented (calls(N) in an assertion at N is therefore the number of EARLIER calls of N).
+func (f *Frame) countCall(cur *blockCur, cc *ssa.CallCommon, callee *ssa.Function) {
+	if f.callerFrame != nil {
+		return
+	}
+	for _, n := range f.c.trackedCalls() {
+		if assertMatches(n, cc, callee) {
+			k := callsKey(n)
+			cur.st = cur.st.set(k, fmt.Sprintf("(+ %s 1)", cur.st.get(k)))
+		}
+	}
+}
+
+// callOrdinal: the 1-based position of call instruction `in` among the calls of NAME in the function, by source position.
+func (f *Frame) callOrdinal(name string, in ssa.Instruction) int {
+	var sites []ssa.Instruction
+	for _, b := range f.fn.Blocks {
+		for _, x := range b.Instrs {
+			ci, ok := x.(ssa.CallInstruction)
+			if ok && assertMatches(name, ci.Common(), ci.Common().StaticCallee()) {
+				sites = append(sites, x)
+			}
+		}
+	}
+	sort.SliceStable(sites, func(i, j int) bool { return sites[i].Pos() < sites[j].Pos() })
+	for i, x := range sites {
+		if x == in {
+			return i + 1
+		}
+	}
+	return 0
 }
